@@ -322,7 +322,7 @@ fn record_case(src: &mut Src, ctx: &mut Ctx) -> Result<(), String> {
         GdsElement::GdsStructRef(r) => r.strans.clone().unwrap(),
         _ => return Err("element kind changed".into()),
     };
-    let got = [lib2.units.0, lib2.units.1, st.mag.unwrap(), st.angle.unwrap()];
+    let got = [lib2.units.0, lib2.units.1, st.mag.ok_or_else(|| format!("MAG {:e} was written but is absent after reading (ANGLE {:e})", v[2], v[3]))?, st.angle.ok_or_else(|| format!("ANGLE {:e} was written but is absent after reading (MAG {:e})", v[3], v[2]))?];
     for k in 0..4 {
         ctx.nontrivial(v[k].to_bits());
         if got[k].to_bits() != v[k].to_bits() {
